@@ -8,7 +8,7 @@ MODULE = r'''
 #[cfg(test)]
 mod verif_replay_d {
     use super::*;
-    const URIS: [&str; 13] = ["http://example.org/pr\u{fc}fung", "http://example.org/api/v1", "http://example.org/api/v", "http://example.org/api/_v1", "http://example.org/a/v", "http://example.org/v1/types", "http://example.org/v2/types", "urn:a:typ", "http://x.org/a-types", "http://x.org/ty.pes", "http://example.org/other", "http://example.org/billing/", "http://example.org/billing"];
+    const URIS: [&str; 14] = ["http://example.org/pr\u{fc}fung", "http://example.org/API/v1", "http://example.org/api/v1", "http://example.org/api/v", "http://example.org/api/_v1", "http://example.org/a/v", "http://example.org/v1/types", "http://example.org/v2/types", "urn:a:typ", "http://x.org/a-types", "http://x.org/ty.pes", "http://example.org/other", "http://example.org/billing/", "http://example.org/billing"];
     const PFX: [&str; 2] = ["a", "b"];
     #[derive(Clone, Copy, Debug)]
     enum Op { Add(usize, usize), Switch(usize) }
@@ -53,6 +53,14 @@ mod verif_replay_d {
                 apply(&mut d, op);
                 n += 1;
                 for b in check(&d, Some(op)) { println!("D|seq|{:?}|{b}", &seq[..=i]); }
+                // a prefix registered by this step is bound to exactly the URI it was declared with (namespace names are compared as strings)
+                if let Op::Add(p, u) = op {
+                    if !before.iter().any(|(k, _)| k == PFX[p]) {
+                        if let Some(v) = d.namespace_lookup.get(PFX[p]) {
+                            if v.namespace != URIS[u] { println!("D|seq|{:?}|prefix {} declared for {} is bound to {}", &seq[..=i], PFX[p], URIS[u], v.namespace); }
+                        }
+                    }
+                }
                 for (k, u) in before { if d.namespace_lookup.get(&k).map(|v| v.namespace.clone()) != Some(u.clone()) { println!("D|seq|{:?}|binding {k} changed", &seq[..=i]); } }
             }
         } } }
